@@ -577,6 +577,13 @@ func (h *hist) step(o *op) bool {
 		if o.Kind == "trunc" {
 			flags |= os.O_TRUNC
 			openSub = &op{Kind: "trunc", Path: o.Path, Create: o.Create}
+		} else if n := h.ref.lookup(o.Path); n != nil && n.isDir {
+			// the target is a directory: the open itself must be refused (is a directory); the
+			// specification tie sees the intended write / append, which Spec.step refuses the same way
+			openSub = &op{Kind: o.Kind, Path: o.Path, Off: o.Off, Data: o.Data, Zero: o.Zero, Nil: o.Nil}
+		}
+		if n := h.ref.lookup(o.Path); n != nil && n.isDir {
+			h.c.Stat("write-to-directory-attempt." + o.Kind)
 		}
 		opened := call(openSub, func() error {
 			var err error
